@@ -59,9 +59,32 @@ def check_history(case, outs, res, nblocks, singletons=()):
     # clauses that rely on the finished-run memory (a stale record cannot re-create a finished run) are
     # checked only when the memory is enabled and larger than the history could fill
     memory = case.cache >= 1000
+    # "once finished, out of the active set": every identifier finished here or named finished by a peer, as long as the
+    # finished-run memory cannot have dropped any (each record named finished takes at most two slots: itself and, for a
+    # singleton pattern, the local run it stands for)
+    gone, slots = set(), 0
     for k, (op, out) in enumerate(zip(case.ops, outs)):
         if out == 'X':
             continue
+        if op.split()[0] == 'rem':
+            cl = None
+            for x in op.split()[1:]:
+                if x in ('C', 'H', 'U'):
+                    cl = x
+                elif cl in ('C', 'H'):
+                    gone.add(x.split('|')[0])
+                    slots += 2
+        else:
+            fin = lists_of(out)
+            for rec in fin['C'] + fin['H']:
+                gone.add(rec.split('|')[0])
+                slots += 1
+        if 0 < case.cache and slots <= case.cache:
+            for r in _parse_table(out):
+                if r.split('|')[0].rstrip('!') in gone:
+                    return fail(res, case, k, 'finished-run-active-again',
+                                f"run {r.split('|')[0]} was finished (here, or named completed / halted by a peer) and is in the active set "
+                                f"after this step")
         cur = {}
         recs = [parse_rec(r) for r in _parse_table(out)]
         for r in recs:
